@@ -25,7 +25,7 @@ let dhash (d : n list) =
 
 let n_cmp a b = compare (string_of_n a |> fun s -> (String.length s, s)) (string_of_n b |> fun s -> (String.length s, s))
 
-let dump (ncl : int) (st : state) : string =
+let dump ?(conn = fun (_ : int) -> true) (ncl : int) (st : state) : string =
   let sv = st.st_sv in
   let b = Buffer.create 256 in
   Buffer.add_string b "U";
@@ -39,7 +39,7 @@ let dump (ncl : int) (st : state) : string =
       (if List.exists (fun g -> g = x.u_id) sv.sv_gc then "g" else ""))) us;
   Buffer.add_string b "C";
   for c = 0 to ncl - 1 do
-    if sv.sv_alive (n_of_int c) then begin
+    if conn c && sv.sv_alive (n_of_int c) then begin
       Buffer.add_string b (Printf.sprintf "[%d" c);
       let ents = List.filter (fun ((cc, _), _) -> i cc = c) sv.sv_cdata in
       let ents = List.sort (fun ((_, u1), _) ((_, u2), _) -> n_cmp u1 u2) ents in
@@ -82,7 +82,15 @@ let handle (p : string) : string =
   match List.filter (fun s -> s <> "") (split p) with
   | [] -> "bad"
   | nc :: ops ->
-    let ncl = ios (List.hd (String.split_on_char ':' nc)) in
+    let hdr = String.split_on_char ':' nc in
+    let ncl = ios (List.hd hdr) in
+    (* late clients (type L) exist in the model from the start (idle); they show up in the daemon's
+       client list only once their C op has run *)
+    let connected = Array.make (max ncl 1) true in
+    (match hdr with
+     | [_; t] when String.length t = ncl && not (String.for_all (fun ch -> ch >= '0' && ch <= '9') t) ->
+       String.iteri (fun k ch -> if ch = 'L' then connected.(k) <- false) t
+     | _ -> ());
     let st = ref (init_state (n_of_int ncl)) in
     let obs = ref [] and srv = ref [] in
     let nsend = ref 0 and nsrv = ref 0 and ndisc = ref 0 and npush = ref 0 and nerr = ref 0 and nbig = ref 0 in
@@ -113,6 +121,9 @@ let handle (p : string) : string =
             done
           done;
           !acc
+        end else if String.length os > 2 && String.sub os 0 2 = "C," then begin
+          let f = Array.of_list (String.split_on_char ',' os) in
+          connected.(ios f.(1) mod ncl) <- true; []
         end else if String.length os > 2 && String.sub os 0 2 = "B," then begin
           (* back-pressure: x stops reading (for the daemon that is a client whose pipe is broken as
              soon as its buffers are full), src streams n identical frames, x then drains, sees the
@@ -148,7 +159,7 @@ let handle (p : string) : string =
         end in
       let e = if parts = [] then "-" else String.concat "+" parts in
       obs := e :: !obs;
-      srv := dump ncl !st :: !srv) ops;
+      srv := dump ~conn:(fun k -> connected.(k)) ncl !st :: !srv) ops;
     let s = !st in
     let cnt = List.init (i s.st_next) (fun r -> List.length (List.filter (fun x -> i x = r) s.st_done)) in
     let once = List.for_all (fun k -> k <= 1) cnt in
